@@ -16,3 +16,12 @@ claim('C12',
       "case is not decided (DESIGN 7).",
       "contract-based deductive verification: symbolic execution of the real functions over index-quantified strings, z3 (E-matching + MBQI)",
       "DESIGN.md 3 C12")
+claim('C11',
+      "SourceScope.find_id_loc is proved, for every window text, identifier, start column, shift and delimiter mode, to return "
+      "the line/column of the first admissible occurrence (loop invariant) or `start`; at every call site the NAME token is "
+      "proved admissible in every token context of the lexical grammar and the window is proved to cover the statement.",
+      "ASCII lines; ast positions of Name/arg nodes equal string indices (parser assumption, so np(node) sites are trusted); "
+      "the token-context table is transcribed from the language reference; `except ... as` uses the clause position by the "
+      "property's own rule.",
+      "contract-based deductive verification: loop-invariant cut on the real find_id_loc over index-quantified strings; ground call-site obligations",
+      "DESIGN.md 3 C11")
